@@ -31,4 +31,17 @@ impl<'a> CharacterString<'a> {
         assert(d.subrange(pre.len() as int + 1, d.len() as int) =~= self.bytes());
     }
 """)
+    c.contract(rel, CS_WF, 'parse', "", pre_body="\n        let ghost d0 = data@;\n        let ghost p0 = *position as int;\n")
+    c.ghost(rel, CS_WF, 'parse', "Ok(Self {", """
+        proof {
+            assert(data@ == d0.subrange(p0 + 1, p0 + 1 + length));
+            assert(length == d0[p0]);
+            assert(*position == p0 + 1 + d0[p0]);
+            let cw: Cow<'a, [u8]> = Cow::Borrowed(data);
+            assert(cw@ == data@);
+            let cs = CharacterString { data: cw };
+            assert(cs.bytes() == data@);
+            assert(Self::wf_dec(d0, p0, &cs, *position as int));
+        }
+""", where='before')
     c.wrap(rel, CS_WF)
